@@ -89,12 +89,20 @@ func Harness_C07_permute() {
 	}
 	vr.Assume(tid[0] != "" && tid[1] != "" && tid[0] != tid[1])
 	vr.Assume(*vdesc[0].Id != *vdesc[1].Id)
-	// the second vehicle may also be anonymous: no descriptor at all, or a descriptor naming nothing
-	switch hConcretize(vr.Int("vehicle1.descriptor", 0, 2), 0, 2) {
+	// how the vehicles are named: 0 both by id; 1/2 the second anonymous (no descriptor at all / a descriptor
+	// naming nothing); 3 both by label only; 4 both by licence plate only (distinct values)
+	isV0 := func(v *Vehicle) bool { return v.ID != nil && v.ID.ID == *vdesc[0].Id }
+	switch hConcretize(vr.Int("vehicle.naming", 0, 4), 0, 4) {
 	case 1:
 		vdesc[1] = nil
 	case 2:
 		vdesc[1] = &gtfsrt.VehicleDescriptor{}
+	case 3:
+		vdesc[0], vdesc[1] = &gtfsrt.VehicleDescriptor{Label: vdesc[0].Id}, &gtfsrt.VehicleDescriptor{Label: vdesc[1].Id}
+		isV0 = func(v *Vehicle) bool { return v.ID != nil && v.ID.Label == *vdesc[0].Label }
+	case 4:
+		vdesc[0], vdesc[1] = &gtfsrt.VehicleDescriptor{LicensePlate: vdesc[0].Id}, &gtfsrt.VehicleDescriptor{LicensePlate: vdesc[1].Id}
+		isV0 = func(v *Vehicle) bool { return v.ID != nil && v.ID.LicensePlate == *vdesc[0].LicensePlate }
 	}
 	refV0, refT0, refT1 := vr.Bool("tu0.refs_vehicle0"), vr.Bool("vp0.refs_trip0"), vr.Bool("vp1.refs_trip1")
 	kinds := make([]int, E)
@@ -157,7 +165,7 @@ func Harness_C07_permute() {
 	}
 	for i := range base.Vehicles {
 		v := &base.Vehicles[i]
-		if v.ID != nil && v.ID.ID == *vdesc[0].Id {
+		if isV0(v) {
 			vr.Assert("C07.own.vehicle", v.IsEntityInMessage == has(1))
 			if has(1) {
 				vr.Assert("C07.own.vehicle.data", vr.DeepEq(v.StopID, ents[hIndexOf(kinds, 1)].Vehicle.StopId))
